@@ -233,6 +233,32 @@ def run(chk):
                "invalid names", n_zone - n_utc, nzone, exhaustive=False)
     chk.stream("duration parts (truncation toward zero, signed millisecond part); calendar accessors rejected on durations",
                n_dur - n_zone, n_dur - n_zone, exhaustive=False)
+    # ---- an unknown zone fails every time: whatever zone was resolved before it, how often it is asked for, through which
+    # accessor, and whether the receiver is a constant the compiler tried to fold first (one process, in this order)
+    hseq, hwant = [], []
+
+    def hadd(src, binds, ok):
+        hseq.append(evalsrc_case(src, binds=binds, ufuncs=[], std=False)); hwant.append(ok)
+    tb = [("t", vtime(T1))]
+    for z in ["Mars/Olympus_Mons", "Bogus/Zone", "Europe/Pariss", "utc ", ""]:
+        zb = tb + [("z", vs(z))]
+        hadd("t.getHours('UTC')", tb, True)
+        hadd("t.getHours(z)", zb, False); hadd("t.getHours(z)", zb, False); hadd("t.getMinutes(z)", zb, False)
+        hadd("timestamp(0).getHours('%s')" % z, tb, False); hadd("timestamp(0).getHours('%s')" % z, tb, False)
+        hadd("t.getFullYear('Europe/Paris')", tb, True)
+        hadd("t.getDate(z)", zb, False); hadd("t.getDate(z)", zb, False); hadd("[t.getHours(z), 1].size()", zb, True)
+        hadd("t.getHours(z)", zb, False)
+        hadd("t.getHours('America/New_York') + t.getHours('Asia/Tokyo')", tb, True)
+        hadd("t.getSeconds(z)", zb, False)
+    assert len(hseq) < 200
+    hres = run_impl(hseq, isolate=True)
+    for c_, ok_, r_ in zip(hseq, hwant, hres):
+        k_ = split_result(r_)[0]
+        if (k_ == "OK") != ok_ and not is_dead(r_):
+            chk.violation("an unknown zone is accepted (or a known one refused) depending on which zones were asked for before",
+                          dict(case=c_, impl=r_, expected="a value" if ok_ else "a failure", sequence=hseq[:hseq.index(c_) + 1][-6:]))
+    chk.stream("known and unknown zones asked for repeatedly and alternately in one process (the same unknown name twice in a row, through "
+               "different accessors, with constant receivers)", len(hseq), len(hseq), exhaustive=True)
     # the recorded finding: one-based getDayOfWeek with a zone
     kf = run_impl([evalsrc_case("t.getDayOfWeek('UTC') == t.getDayOfWeek()", binds=[("t", vtime(T1))], ufuncs=[], std=False)], isolate=True)[0]
     if not kf.startswith("OK b1"):
